@@ -87,8 +87,12 @@ def gen_module(rnd, name, collide=None):
     # factory
     if rnd.random() < 0.8:
         b, c = body(4, False)
-        lines += ["def factory():", "    def inner(x):"] + b + ["    return inner", "", "inner_fn = factory()", ""]
+        k[0] += 1
+        cf = 100 * k[0]
+        lines += ["def factory(x=0):", f"    v = x + {cf}", "    def inner(x):"] + b + ["    return inner", "", "inner_fn = factory()", ""]
         descs.append({"call": "inner_fn({x})", "target": "inner_fn", "by_name": "inner_fn", "k": c, "kind": "local-function"})
+        # the enclosing function itself is a probe target too (the closure it returns is dropped at once)
+        descs.append({"call": "(lambda _r: {x} + %d)(factory({x}))" % cf, "target": "factory", "by_name": "factory", "k": cf, "kind": "enclosing-function"})
     if rnd.random() < 0.6:
         # a closure that really captures a free variable
         k[0] += 1
